@@ -27,7 +27,7 @@ def cap_distance(x, cm, points):
         xyz = points
     else:
         raise ValueError('Inappropriate shape for point!')
-    dotprod = np.dot(xyz, x)
+    dotprod = np.clip(np.dot(xyz, x), -1.0, 1.0)
     cdist = np.degrees(np.arccos(1.0 - np.abs(cm)) - np.arccos(dotprod))
     if cm < 0:
         cdist *= -1.0
